@@ -1603,32 +1603,40 @@ class Session:
             kind = "F3c"
             self.probes.hit("fault_downgraded_no_solver_query")
         if kind in ("F1", "F2"):
-            q = 1 + int(fault["u"] * n_q) % max(1, n_q)
-            self.faults[kind + "_planned"] += 1
-            self.solver.begin({q: kind})
-            try:
-                out2 = ("ret", call())
-            except Exception as e:
-                out2 = ("exc", e)
-            fired = bool(self.solver.fired)
-            self.solver.begin({})
-            if fired:
-                self.faults[kind + "_fired"] += 1
-                self.probes.hit(f"{kind}_{'returned' if out2[0]=='ret' else 'raised'}")
-            self.log.log("fault", f=kind, q=q, fired=fired, o=out2[0])
-            if fired and out2[0] == "ret" and self.sem is not None and pid not in self.tainted:
-                from exo.API import Procedure
+            # the fault lands on up to three different queries of this call (one execution each): which
+            # query an incomplete solver gives up on is not ours to choose, and fail-open handling
+            # usually sits behind one particular query
+            q0 = int(fault["u"] * n_q) % max(1, n_q)
+            step = max(1, n_q // 3)
+            qs = sorted({1 + (q0 + j * step) % n_q for j in range(min(3, n_q))})
+            for q in qs:
+                self.faults[kind + "_planned"] += 1
+                self.solver.begin({q: kind})
+                try:
+                    out2 = ("ret", call())
+                except Exception as e:
+                    out2 = ("exc", e)
+                fired = bool(self.solver.fired)
+                self.solver.begin({})
+                if fired:
+                    self.faults[kind + "_fired"] += 1
+                    self.probes.hit(f"{kind}_{'returned' if out2[0]=='ret' else 'raised'}")
+                self.log.log("fault", f=kind, q=q, fired=fired, o=out2[0])
+                if fired and out2[0] == "ret" and self.sem is not None and pid not in self.tainted:
+                    from exo.API import Procedure
 
-                r = out2[1][0] if isinstance(out2[1], tuple) else out2[1]
-                if isinstance(r, Procedure) and r is not self.procs[pid]:
-                    tmp = f"_f{len(self.procs)}"
-                    self.procs[tmp] = r
-                    self.parent[tmp] = pid
-                    try:
-                        self.check_sem(name, pid, tmp, tag=f"[{kind}]")
-                    finally:
-                        del self.procs[tmp]
-                        del self.parent[tmp]
+                    r = out2[1][0] if isinstance(out2[1], tuple) else out2[1]
+                    if isinstance(r, Procedure) and r is not self.procs[pid]:
+                        tmp = f"_f{len(self.procs)}"
+                        self.procs[tmp] = r
+                        self.parent[tmp] = pid
+                        try:
+                            self.check_sem(name, pid, tmp, tag=f"[{kind}]")
+                        finally:
+                            del self.procs[tmp]
+                            del self.parent[tmp]
+                if self.viol is not None:
+                    break
         else:
             k = 1 + int(fault["u"] * n_events) % max(1, n_events)
             self.faults["F3_planned"] += 1
